@@ -47,6 +47,7 @@ namespace bxdecay0 {
                        double c3_,
                        double c4_)
   {
+    BXDECAY0_VERIF_SCOPE("beta_1fu", Qbeta_, Zdtr_, tcnuc_, thnuc_, c1_, c2_, c3_, c4_);
     bj69sl2 parssl2;
     parssl2.Zdtr  = Zdtr_;
     parssl2.Qbeta = Qbeta_;
@@ -220,6 +221,7 @@ namespace bxdecay0 {
       E  = 50.e-6 + (Qbeta - 50.e-6) * prng_();
       fe = decay0_funbeta_1fu(E, params_);
       f  = fm * prng_();
+      BXDECAY0_VERIF_NOTE("beta_trial", E, f, fe, fm);
     } while (f > fe);
     bxdecay0::particle_code np;
     if (Zdtr >= 0.) {
